@@ -162,7 +162,8 @@ def _alias_rule(chk, prog):
                     if ("noalias", v) not in facts:
                         add.add(("stale", v))
                 # an explicit ensure on the alias path makes a following push realloc-free
-                if n.callee == "janet_buffer_ensure":
+                # (janet_buffer_extra(b, view.len) reserves exactly what the push appends - the checked way to do it)
+                if n.callee in ("janet_buffer_ensure", "janet_buffer_extra"):
                     add.add(("ensured", strip_casts(n.args[0]).name))
                 return facts | frozenset(add)
             if n.k == "asg" and n.op == "=":
